@@ -268,9 +268,15 @@ struct ArchiveDamage : Family {
 		}
 		else if (v == "extract") {
 			std::string path = "_x" + tag + "/f.bin";
-			// an index that no per-member call may accept, with the archive's OWN path as destination: the call is refused, and a refused
-			// call leaves everything as it was - the archive file included (judged by the calls that follow)
-			if (op.u("ontoself", 0) && idxOf(op) >= count) path = t.path;
+			// a member whose extraction this object refuses WITHOUT creating its output (tried first on a scratch destination) is then
+			// asked for with the archive's OWN path as destination: it is refused again, and a refused call leaves everything as it was -
+			// the archive file included (judged by the calls that follow, on this object and on freshly opened ones)
+			if (op.u("ontoself", 0) && !op.has("allocfail") && !op.has("openfail")) { // (only when the refusal is the archive's own, not an injected fault's)
+				std::string probe = "_xp" + tag + "/f.bin";
+				bool refusedClean = false;
+				{ std::string pw; Out po = callLib(plan, [&] { ar.ExtractFile(idxOf(op), probe); }, &pw); refusedClean = po == ErrStd && !disk::exists(probe); }
+				if (refusedClean) path = t.path;
+			}
 			r.out = callLib(plan, [&] { ar.ExtractFile(idxOf(op), path); }, &r.what);
 			std::vector<uint8_t> f;
 			if (r.out == OkOut && disk::get(path, f)) r.value = fnv1a(f.data(), f.size()) ^ f.size();
